@@ -595,7 +595,11 @@ impl C16 {
         renetcode::verif::set_rng_seed(None);
         let Ok(token) = token else { return Ok(()) };
         let mut w = Vec::new();
-        token.write(&mut w).unwrap();
+        token.write(&mut w).map_err(|e| Fail::new("token_write", e.to_string()))?;
+        // the smallest serialized token (one IPv4 address) has 1172 bytes; the edits below address fields at their fixed offsets
+        if w.len() < 1172 {
+            return Err(Fail::new("token_write", format!("ConnectToken::write produced {} bytes for a token with {} address(es)", w.len(), token.server_addresses.iter().flatten().count())));
+        }
         const ADDR_OFF: usize = 8 + 13 + 8 + 8 + 8 + 24 + 1024 + 4;
         let muts = 1 + src.below(3);
         let mut what = vec![];
